@@ -17,6 +17,8 @@ pub fn step(ctx: &Ctx, w: &World, ev: &mut Ev) {
     names.extend(ctx.post.bal.keys());
     let changed: Vec<String> = names.iter().filter(|n| ctx.pre.bal(n) != ctx.post.bal(n)).map(|n| n.to_string()).collect();
     let sender = w.resolve(&ctx.step.actor);
+    // the fee pool the engine is configured with at the time of the transaction (the owner may re-point it)
+    let cur_fp = ctx.pre.eng.as_ref().map(|e| e.fee_pool.clone()).unwrap_or_else(|| w.addrs.fee_pool.clone());
     let role_of = |a: &str| -> String {
         if a == sender {
             "sender".into()
@@ -24,7 +26,7 @@ pub fn step(ctx: &Ctx, w: &World, ev: &mut Ev) {
             "engine".into()
         } else if a == w.addrs.insurance_fund {
             "insurance_fund".into()
-        } else if a == w.addrs.fee_pool {
+        } else if a == cur_fp || (a == w.addrs.fee_pool && matches!(ctx.step.op, Op::FpSend { .. })) {
             "fee_pool".into()
         } else if w.addrs.vamms.iter().any(|v| v == a) {
             "vamm".into()
